@@ -1,6 +1,8 @@
 import M3d.Lemmas.CodecStl
 import M3d.Lemmas.CodecPly
 import M3d.Lemmas.CodecMesh
+import M3d.Lemmas.CodecText
+import M3d.Lemmas.CodecCsv
 import M3d.Model.CodecMesh
 /-!
 # C15 — mesh files round-trip through the library's writers and readers
@@ -81,6 +83,28 @@ theorem ply_row_roundtrip {ft : FloatText} (f : Format) (hft : f = .text → Tex
     ∃ a, readRow ft f el (encodeRow ft f row ++ rest) = .ok (row, rest, a) :=
   readRow_row f hft el row h rest
 
+/-- **Decimal integer text** (`strconv.FormatInt` ↔ `ParseInt(s, 10, bits)`, also `Itoa`/`Atoi`): every
+value representable at `bits` bits is read back. -/
+theorem int_text_roundtrip (bits : Nat) (i : Int) (hlo : -(2 ^ (bits - 1) : Nat) ≤ i) (hhi : i < (2 ^ (bits - 1) : Nat)) :
+    parseIntN bits (fmtInt i) = some i :=
+  parseIntN_fmtInt bits i hlo hhi
+
+/-- `strconv.FormatUint` ↔ `ParseUint(s, 10, bits)`. -/
+theorem uint_text_roundtrip (bits n : Nat) (h : n < 2 ^ bits) : parseUintN bits (fmtNat n) = some n :=
+  parseUintN_fmtNat bits n h
+
+/-- **PLY scalar, ASCII, the six integer types**: no hypothesis at all — the text is a token, is not the
+word `comment`, and parses back to the same value. -/
+theorem ply_int_value_roundtrip_ascii (ft : FloatText) (s : Scalar) (hw : s.WF) (hk : s.kind.isFloat = false) :
+    parseScalar ft s.kind (scalarText ft s) = some s ∧ IsToken (scalarText ft s) ∧ scalarText ft s ≠ tokComment :=
+  int_text_ok ft s hw hk
+
+/-- The hypothesis `TextOK` of the ASCII theorems is exactly Go's *float* text law (`FloatTextOK`:
+`ParseFloat(FormatFloat(x,'f',-1,b), b) = x`, and the text is a token) — which the harness checks on
+every float that crosses. -/
+theorem ply_text_ok_of_float_law {ft : FloatText} (h : FloatTextOK ft) : TextOK ft :=
+  textOK_of_floats h
+
 /-- **PLY stream, writer side**: for every element list — any names, any counts (zero and negative
 included), any property lists — and every conforming value sequence, the sequence of `Write` calls
 never fails, emits the rows in order and ends flushed (*done*), also when trailing elements are empty. -/
@@ -138,6 +162,17 @@ example :
     let a : Element := ⟨[97], 1, []⟩
     let z : Element := ⟨[122], 0, []⟩
     isDone [a, z] 1 = true ∧ isDoneUnrepaired [a, z] 1 = false := by decide
+
+/-! ## segment CSV -/
+
+/-- **CSV round trip**: `DecodeCSV` (through the modelled subset of `encoding/csv`, 4 fields per record) of
+what `SegmentCSVWriter.Write` wrote returns the same segments in the same order, bit for bit — given
+Go's `'G', -1` float text law (`CsvTextOK`: parses back, and contains no comma, quote, CR or LF),
+checked by the harness on every number. -/
+theorem csv_roundtrip {fmtG : UInt64 → Bytes} {pf : Bytes → Option UInt64} (hok : CsvTextOK fmtG pf)
+    (segs : List (List UInt64)) (h4 : ∀ s ∈ segs, s.length = 4) :
+    csvDecode pf (csvEncode fmtG segs) = .ok segs :=
+  csvDecode_encode hok segs h4
 
 /-! ## vertex de-duplication and OBJ/3MF index construction -/
 
